@@ -11,6 +11,8 @@
 -/
 import ExoModel.Wf
 import ExoModel.Rewrite
+import ExoModel.RewriteStorage
+import ExoModel.RewriteData
 
 namespace Exo.WfShapes
 open Exo Exo.Wf Exo.Rw
@@ -133,6 +135,165 @@ def multLoopsOk (Γ : Env) (k : Sym) : List Stmt → Bool
 def liftIfOutOfLoopOk : List Stmt → Bool
   | .loop i _ _ [.ite c _ _] _ :: _ => !c.occC i
   | _ => true
+
+/-! ### the symbols a term mentions (free or binding; callee bodies are separate scopes) -/
+
+mutual
+def symsE : Expr → List Sym
+  | .read x idx => x :: symsEs idx
+  | .lit _ => []
+  | .usub e => symsE e
+  | .binop _ a b => symsE a ++ symsE b
+  | .extern _ args => symsEs args
+  | .win x acc => x :: symsWs acc
+  | .stride x _ => [x]
+  | .readcfg _ _ => []
+def symsEs : List Expr → List Sym
+  | [] => []
+  | e :: r => symsE e ++ symsEs r
+def symsW : WAcc → List Sym
+  | .interval lo hi => symsE lo ++ symsE hi
+  | .point e => symsE e
+def symsWs : List WAcc → List Sym
+  | [] => []
+  | a :: r => symsW a ++ symsWs r
+end
+
+mutual
+def symsS : Stmt → List Sym
+  | .assign x idx e => x :: (symsEs idx ++ symsE e)
+  | .reduce x idx e => x :: (symsEs idx ++ symsE e)
+  | .writecfg _ _ e _ => symsE e
+  | .pass => []
+  | .ite c t e => symsE c ++ (symsL t ++ symsL e)
+  | .loop i lo hi b _ => i :: (symsE lo ++ (symsE hi ++ symsL b))
+  | .alloc x sh => x :: symsEs sh
+  | .free x => [x]
+  | .call _ args => symsEs args
+  | .window x e => x :: symsE e
+def symsL : List Stmt → List Sym
+  | [] => []
+  | s :: r => symsS s ++ symsL r
+end
+
+/-! ### side conditions of the dimension rewrites (re-indexing of a buffer) -/
+
+mutual
+/-- the bare name `x` in a view position (whole-buffer call argument, right-hand side of a window
+    statement): its rank is the declared rank, which the rewrite changes -/
+def bareViewS (x : Sym) : Stmt → Bool
+  | .call _ args => passesWhole x args
+  | .window _ (.read y []) => y == x
+  | .ite _ t el => bareViewL x t || bareViewL x el
+  | .loop _ _ _ b _ => bareViewL x b
+  | _ => false
+def bareViewL (x : Sym) : List Stmt → Bool
+  | [] => false
+  | s :: r => bareViewS x s || bareViewL x r
+end
+
+mutual
+/-- a later allocation whose extents mention `x` (the rewrites do not touch extents) -/
+def allocMentionsS (x : Sym) : Stmt → Bool
+  | .alloc _ sh => (symsEs sh).contains x
+  | .ite _ t el => allocMentionsL x t || allocMentionsL x el
+  | .loop _ _ _ b _ => allocMentionsL x b
+  | _ => false
+def allocMentionsL (x : Sym) : List Stmt → Bool
+  | [] => false
+  | s :: r => allocMentionsS x s || allocMentionsL x r
+end
+
+/-- what a re-indexing of `x` needs from the rest of the block: no window expression of `x` when
+    the rewrite cannot re-index windows (`noWin`), no `stride(x, d)` with a dimension number `ps`
+    rejects (RANK CONSISTENCY of `stride`: the findings S1–S3), no bare `x` in a view position, no
+    later extent that mentions `x` -/
+def reidxSideOk (x : Sym) (noWin : Bool) (ps : Nat → Bool) (r : List Stmt) : Bool :=
+  !anyAccL x (fun _ => false) (fun _ => noWin) ps r && !bareViewL x r && !allocMentionsL x r
+
+def expandDimOk (Γ : Env) (n e : Expr) : List Stmt → Bool
+  | .alloc x _ :: r => wfC Γ n && wfC Γ e && reidxSideOk x false (fun _ => false) r
+  | _ => true
+
+def divideDimOk : List Stmt → Bool
+  | .alloc x _ :: r => reidxSideOk x true (fun _ => false) r
+  | _ => true
+
+/-- `mult_dim` lowers the rank by one: `stride(x, rank - 1)` would dangle -/
+def multDimOk : List Stmt → Bool
+  | .alloc x sh :: r => reidxSideOk x true (fun d => decide (sh.length - 1 ≤ d)) r
+  | _ => true
+
+def resizeDimOk (Γ : Env) (size off : Expr) : List Stmt → Bool
+  | .alloc x _ :: r => wfC Γ size && wfC Γ off && reidxSideOk x false (fun _ => false) r
+  | _ => true
+
+/-! ### site conditions of the storage, data and call shapes -/
+
+/-- `delete_buffer`: the statements after the allocation are well formed without it -/
+def deleteBufferOk (Γ : Env) : List Stmt → Bool
+  | .alloc _ _ :: r => (wfL Γ r).isSome
+  | _ => true
+
+/-- `delete_pass` as a local rewrite of the whole body (applied at path `[body 0]`) -/
+def deletePassLocal : Local := fun ss => some (deletePass ss)
+
+/-- `sink_alloc`: bounds / condition of the scope statement and the statements after it are well
+    formed without the allocation; a non-empty `else` branch is well formed WITHOUT it (its
+    statements are not renamed: finding D1) and its copy's name `x'` is new -/
+def sinkAllocOk (Γ : Env) (x' : Sym) : List Stmt → Bool
+  | .alloc _ _ :: .loop _ lo hi _ _ :: r => wfC Γ lo && wfC Γ hi && (wfL Γ r).isSome
+  | .alloc _ _ :: .ite c _ e :: r =>
+    wfC Γ c && (wfL Γ r).isSome &&
+      (e.isEmpty || (fresh Γ x' && !(bindL e).contains x' && (wfL Γ e).isSome))
+  | _ => true
+
+/-- `lift_alloc`: the allocation's name is new at the scope statement and bound nowhere else in
+    it nor after it, its extents are well formed there (they mention no iterator of a crossed loop) -/
+def liftAllocOk (Γ : Env) (rel : Path) : List Stmt → Bool
+  | s :: r =>
+    match rel with
+    | _ :: nxt :: rest =>
+      match removeAt (.body 0 :: nxt :: rest) [s] with
+      | some (.alloc x sh, [s']) =>
+        fresh Γ x && wfCs Γ sh && !(bindS s').contains x && !(bindL r).contains x
+      | _ => true
+    | _ => true
+  | [] => true
+
+/-- `bind_expr`: new name, the bound expression is a well-formed data expression at the site, the
+    statement after replacement is well formed with the new scalar in scope -/
+def bindExprOk (Γ : Env) (t : Sym) (e : Expr) (s' : Stmt) : List Stmt → Bool
+  | _ :: r =>
+    fresh Γ t && wfD Γ e && (defName s').isEmpty && (wfS ((t, some 0) :: Γ) s').isSome &&
+      !(bindL r).contains t
+  | [] => true
+
+/-- `lift_reduce_constant`: the factor taken from inside the loop is well formed after the loop -/
+def liftConstantOk (Γ : Env) : List Stmt → Bool
+  | .assign x _ _ :: .loop _ _ _ body _ :: _ =>
+    match firstScaleL x body with | some c => wfD Γ c | none => true
+  | .reduce x _ _ :: .loop _ _ _ body _ :: _ =>
+    match firstScaleL x body with | some c => wfD Γ c | none => true
+  | .assign x _ _ :: .ite _ t _ :: _ =>
+    match firstScaleL x t with | some c => wfD Γ c | none => true
+  | .reduce x _ _ :: .ite _ t _ :: _ =>
+    match firstScaleL x t with | some c => wfD Γ c | none => true
+  | _ => true
+
+/-- `rewrite_expr`: the statement with the new expressions is well formed and defines what the old
+    one defined -/
+def rewriteExprOk (Γ : Env) (s' : Stmt) : List Stmt → Bool
+  | s :: r =>
+    match rewriteExprWith s' (s :: r) with
+    | some (s2 :: _) => (wfS Γ s2).isSome && (wfS Γ s2 == wfS Γ s)
+    | _ => true
+  | [] => true
+
+/-- `extract_subproc`: the new callee is well formed, the call is well formed, the statements
+    after the block are well formed without what the block defined -/
+def extractBlockOk (Γ : Env) (sub : Proc) (args : List Expr) (n : Nat) (ss : List Stmt) : Bool :=
+  wfP sub && wfCallArgs Γ sub.args args && (wfL Γ (ss.drop n)).isSome
 
 /-! ### the scope skeleton: every binder is fresh where it is bound -/
 
